@@ -98,6 +98,27 @@ def corpus():
     out.append(_case('type Query { a: Int @deprecated(reason: null) b: Int @deprecated c: Int @deprecated(reason: "") '
                      'd: Int @deprecated(reason: "x") @deprecated(reason: "y") }', "valid"))
     out.append(_case("schema { query: Query }\ntype Query { a: Int }\ntype Mutation { b: Int }", "valid"))
+    # seeded C11-h: implementing fields anywhere in the covariance lattice of the interface field's type --
+    # [T]! / [T!]! / [T!] for [T], [[T]!] for [[T]], T! for T, object-for-interface and member-for-union inside
+    # the wrappers; direct, through `extend type ... implements`, any definition order
+    out.append(_case("interface I { a: [Int], b: [Int], c: [[Int]], d: Int, e: [I], f: [U], g: [[I]] }\n"
+                     "union U = A | B\n"
+                     "type A implements I { a: [Int]!, b: [Int!]!, c: [[Int]!], d: Int!, e: [A]!, f: [B!]!, g: [[A!]!]! }\n"
+                     "type B implements I { a: [Int!], b: [Int], c: [[Int!]!]!, d: Int, e: [I!], f: [U]!, g: [[B]!] }\n"
+                     "type Query { i: I }", "implements-covariant"))
+    out.append(_case("type Query { n: Node }\ntype Item { id: ID!, tags: [String!]!, grid: [[Int]!] }\n"
+                     "extend type Item implements Node\n"
+                     "interface Node { id: ID, tags: [String], grid: [[Int]] }", "implements-covariant"))
+    out.append(_case("type Query { n: Node }\ntype Item { id: ID!, tags: [String!]!, grid: [[Int]!] }\n"
+                     "extend type Item implements Node\n"
+                     "interface Node { id: ID, tags: [String], grid: [[Int]] }", "implements-covariant", ignore=True))
+    # ... and the contravariant direction is rejected
+    out.append(_case("interface I { a: [Int]! }\ntype A implements I { a: [Int] }\ntype Query { i: I }",
+                     "interface-field-contravariant", expect=3))
+    out.append(_case("interface I { a: [Int!] }\ntype A implements I { a: [Int]! }\ntype Query { i: I }",
+                     "interface-field-contravariant", expect=3))
+    out.append(_case("interface I { a: [[Int]!] }\ntype A implements I { a: [[Int]] }\ntype Query { i: I }",
+                     "interface-field-contravariant", expect=3))
     # seeded C14-g: an explicit `= null` default is a default (has_default_value, value None), also after the
     # document went through extend_schema because of an unrelated extension -- field arguments, input fields,
     # directive arguments; named, list and enum types
